@@ -428,6 +428,27 @@ let run_ovr (dump : Stdlib.String.t list) (hist : Stdlib.String.t) (out : Buffer
     (* OverrideStates is only cleaned when there are overrides: with an empty table `removed` keeps its previous value (empty) *)
     Buffer.add_string out (Printf.sprintf "OV %d : %s ; %s\n" i (f o) (f r))) (String.split_on_char '|' hist)
 
+
+(* ---------- C12: defseq table (route B: the model elaborates the encoded key lists itself) ---------- *)
+let run_seqtab (_dump : Stdlib.String.t list) (hist : Stdlib.String.t) (out : Buffer.t) =
+  let t = mk_toks hist in
+  let defs = ref [] in
+  while t.pos < Array.length t.arr do
+    match next t with
+    | "DEF" ->
+      let x = next_n t in let y = next_n t in
+      let n = next_int t in
+      let vals = repeat n (fun () -> next_n t) in
+      defs := ((x, y), vals) :: !defs
+    | _ -> ()
+  done;
+  match parse_sequences (List.rev !defs) [] with
+  | Inl _ -> Buffer.add_string out "REJECTED\n"
+  | Inr tr ->
+    let ents = List.map (fun (k, (x, y)) ->
+      Printf.sprintf "%s>%d,%d" (String.concat "." (List.map (fun v -> string_of_int (int_of_n v)) k)) (int_of_n x) (int_of_n y)) tr in
+    Buffer.add_string out (Printf.sprintf "SEQS %s\n" (String.concat " " (List.sort compare ents)))
+
 (* ---------- C10: switch compile + evaluate ---------- *)
 let rec read_bexpr t : bexpr =
   match next t with
@@ -545,6 +566,7 @@ let () =
   | _ :: "lsim" :: path :: _ -> sim_main run_lsim path
   | _ :: "ksim" :: path :: _ -> sim_main run_ksim path
   | _ :: "ovr" :: path :: _ -> sim_main run_ovr path
+  | _ :: "pinfo" :: path :: _ -> sim_main run_seqtab path
   | _ :: "keys" :: _ -> keys_main ()
   | _ :: "swev" :: path :: _ -> swev_main path
   | _ -> prerr_endline "usage: driver <lsim FILE|keys>"; exit 2
